@@ -111,36 +111,64 @@ theorem WFApi.checkSentinel_ok_cases {dt : DT} {s : Option Val} {v : Val}
     · cases h; exact Or.inr (Or.inr ⟨_, rfl, rfl⟩)
     · cases h
 
+theorem WFApi.nodup_eraseDups (l : List Nat) : l.eraseDups.Nodup := by
+  generalize hn : l.length = n
+  induction n using Nat.strongRecOn generalizing l with
+  | _ n ih =>
+    cases l with
+    | nil => simp
+    | cons a as =>
+      rw [List.eraseDups_cons, List.nodup_cons]
+      simp only [List.length_cons] at hn
+      have hF := List.length_filter_le (fun b => !b == a) as
+      refine ⟨?_, ih _ (by omega) _ rfl⟩
+      rw [List.mem_eraseDups, List.mem_filter]
+      rintro ⟨_, h⟩
+      simp at h
+
+theorem WFApi.lt_of_not_any_ge {n : Nat} {l : List Nat}
+    (h : ¬ (l.any fun x => decide (x ≥ n)) = true) : ∀ k ∈ l, k < n := by
+  intro k hk
+  apply Nat.lt_of_not_le
+  intro hge
+  exact h (List.any_eq_true.2 ⟨k, hk, by simpa using hge⟩)
+
+/-- what a successful `make_empty` did: repeats of `cov_pixels` are dropped (keeping the order)
+    and every requested coverage pixel is in range -/
 theorem WFApi.apiMakeEmpty_ok {covord spord : Nat} {kind : Kind} {sentinel : Option Val}
     {covPix : List Nat} {m : MapObj}
     (h : apiMakeEmpty covord spord kind sentinel covPix = .ok m) :
     covord ≤ spord ∧ m.covord = covord ∧ m.spord = spord ∧ m.kind = kind ∧
-    m.st = makeEmpty (cfgOf covord spord) ⟨kind.blank m.sent, kind.valid m.sent⟩ covPix ∧
+    m.st = makeEmpty (cfgOf covord spord) ⟨kind.blank m.sent, kind.valid m.sent⟩ covPix.eraseDups ∧
+    (∀ k ∈ covPix.eraseDups, k < (cfgOf covord spord).ncov) ∧
     m.cache = none ∧ m.view = none := by
   unfold apiMakeEmpty at h
   simp only [bind, Except.bind, pure, Except.pure, throw, throwThe, MonadExceptOf.throw] at h
   replace h := guard_ok h
   have hle : covord ≤ spord := Nat.le_of_not_lt h.1
   replace h := h.2
+  replace h := guard_ok h
+  have hlt := lt_of_not_any_ge h.1
+  replace h := h.2
   repeat' xpeel h
-  all_goals (cases h; exact ⟨hle, rfl, rfl, rfl, rfl, rfl, rfl⟩)
+  all_goals (cases h; exact ⟨hle, rfl, rfl, rfl, rfl, hlt, rfl, rfl⟩)
 
-/-- `make_empty(cov_pixels=P)` does not validate `P`: the layout holds **provided** `P` is
-    duplicate-free and in range (see the counterexamples below). -/
-theorem WF.apiMakeEmpty_partial {covord spord : Nat} {kind : Kind} {sentinel : Option Val}
-    {covPix : List Nat} {m : MapObj} (hnd : covPix.Nodup)
-    (hlt : ∀ k ∈ covPix, k < 12 * 4 ^ covord)
-    (hr : apiMakeEmpty covord spord kind sentinel covPix = .ok m) : m.WF := by
-  obtain ⟨hle, h1, h2, h3, h4, _, _⟩ := apiMakeEmpty_ok hr
+/-- **`make_empty` yields a well-formed map, whatever `cov_pixels` is**: repeats are dropped and
+    an out-of-range coverage pixel is refused (after the `fix:` commit; before it the layout held
+    only for a duplicate-free in-range list) -/
+theorem WF.apiMakeEmpty {covord spord : Nat} {kind : Kind} {sentinel : Option Val}
+    {covPix : List Nat} {m : MapObj}
+    (hr : HS.apiMakeEmpty covord spord kind sentinel covPix = .ok m) : m.WF := by
+  obtain ⟨hle, h1, h2, h3, h4, hlt, _, _⟩ := apiMakeEmpty_ok hr
   refine ⟨by rw [h1, h2]; exact hle, ?_⟩
   unfold MapObj.c MapObj.vc
   rw [h4, h1, h2, h3]
-  exact inv_makeEmpty' _ _ covPix hnd hlt
+  exact inv_makeEmpty' _ _ _ (nodup_eraseDups covPix) hlt
 
-/-- the form every internal caller uses (`covPix = []`) needs no hypothesis -/
+/-- the form every internal caller uses (`covPix = []`) -/
 theorem WF.apiMakeEmpty_nil {covord spord : Nat} {kind : Kind} {sentinel : Option Val}
-    {m : MapObj} (hr : apiMakeEmpty covord spord kind sentinel [] = .ok m) : m.WF :=
-  WF.apiMakeEmpty_partial List.nodup_nil (by simp) hr
+    {m : MapObj} (hr : HS.apiMakeEmpty covord spord kind sentinel [] = .ok m) : m.WF :=
+  WF.apiMakeEmpty hr
 
 
 /-! ### `update_values_pix` -/
@@ -946,12 +974,13 @@ theorem WFApi.okAnd_iff {α : Type} (r : Except Err α) (P : α → Bool) :
   | ok m => exact ⟨fun h => ⟨m, rfl, h⟩, fun ⟨m', h1, h2⟩ => (by cases h1; exact h2)⟩
   | error e => exact ⟨fun h => (by cases h), fun ⟨m', h1, _⟩ => (by cases h1)⟩
 
-/-- `make_empty(cov_pixels=[0, 0])`: accepted, block start of pixel 0 beyond the storage -/
-example : okAnd (apiMakeEmpty 0 0 (.plain (.int 32 true)) none [0, 0]) (fun m => !decide m.WF) = true := by
-  decide +kernel
-
-/-- `make_empty(cov_pixels=[12])` with 12 coverage pixels: accepted, a block nobody owns -/
-example : okAnd (apiMakeEmpty 0 0 (.plain (.int 32 true)) none [12]) (fun m => !decide m.WF) = true := by
+/-- `make_empty(cov_pixels=[3, 0, 3])`: the repeat is dropped, two blocks are allocated in the
+    order given, the map is well formed; `cov_pixels=[12]` with 12 coverage pixels is refused -/
+example : okAnd (apiMakeEmpty 0 0 (.plain (.int 32 true)) none [3, 0, 3])
+      (fun m => decide m.WF && m.st.sp.size == 3 && m.st.cov.toList.take 4 == [2, 0, 0, -2]) = true ∧
+    (match apiMakeEmpty 0 0 (.plain (.int 32 true)) none [12] with
+     | .error .index => true
+     | _ => false) = true := by
   decide +kernel
 
 /-- an empty map of the smallest configuration with the given kind and sentinel -/
